@@ -12,15 +12,41 @@ package main
 // Lean store model must predict the same verdicts, and that the converted schema's Bag is not rewritten.
 
 import (
+	"encoding/json"
 	"fmt"
 	"os"
+	"path/filepath"
+	"runtime/debug"
+	"runtime/pprof"
 	"sort"
+	"sync"
 
 	"verifharness/hx"
 	"verifharness/storex"
 )
 
 func main() {
+	if target := os.Getenv("C12_GEN"); target != "" {
+		repo := os.Getenv("VERIF_REPO")
+		if repo == "" {
+			repo = "/repo"
+		}
+		if err := genAccess(repo, target); err != nil {
+			fmt.Fprintln(os.Stderr, "translator error:", err)
+			os.Exit(3)
+		}
+		return
+	}
+	if target := os.Getenv("C12_GEN_ALSO"); target != "" { // translator first, then the histories (one build, one process)
+		repo := os.Getenv("VERIF_REPO")
+		if repo == "" {
+			repo = "/repo"
+		}
+		if err := genAccess(repo, target); err != nil {
+			fmt.Fprintln(os.Stderr, "translator error:", err)
+			os.Exit(3)
+		}
+	}
 	if err := run(hx.ParseFlags()); err != nil {
 		fmt.Fprintln(os.Stderr, "harness error:", err)
 		os.Exit(3)
@@ -36,11 +62,113 @@ func emit(h *storex.Hist, o *hx.Out, tag string) {
 }
 
 func run(c hx.Config) error {
-	o, err := hx.NewOut(c.OutDir)
+	debug.SetGCPercent(400) // the histories allocate short-lived parse results and error lists almost exclusively
+	if pf := os.Getenv("C12_PROF"); pf != "" {
+		f, _ := os.Create(pf)
+		pprof.StartCPUProfile(f)
+		defer pprof.StopCPUProfile()
+	}
+	storex.CheckCatalogue() // built once, before any concurrency
+	// every schema type (storex.Bases) and the schema kinds whose DEFINITION holds reference-typed data handed out by
+	// accessors, with adversarial members (storex.DefBases: repeats, nested slices, maps, shared member instances)
+	bases := append(storex.Bases(), storex.DefBases()...)
+	// The families of different bases share nothing but the library's globals; they are run by a few workers, each base
+	// with its own random stream (seed, base index) and its own output part; the parts are joined in base order, so
+	// the case stream is a function of the seed and the tier only.
+	workers := 4
+	if n := os.Getenv("C12_WORKERS"); n != "" {
+		fmt.Sscan(n, &workers)
+	}
+	parts := make([]string, len(bases))
+	errs := make([]error, len(bases))
+	jobs := make(chan int)
+	var wg sync.WaitGroup
+	for w := 0; w < workers; w++ {
+		wg.Add(1)
+		go func() {
+			defer wg.Done()
+			for k := range jobs {
+				parts[k] = filepath.Join(c.OutDir, fmt.Sprintf("part-%03d", k))
+				o, err := hx.NewOut(parts[k])
+				if err != nil {
+					errs[k] = err
+					continue
+				}
+				runBase(c, bases[k], hx.NewRng(c.Seed*1000003+uint64(k)+1), o)
+				errs[k] = o.Close(nil)
+			}
+		}()
+	}
+	for k := range bases {
+		jobs <- k
+	}
+	close(jobs)
+	wg.Wait()
+	for _, e := range errs {
+		if e != nil {
+			return e
+		}
+	}
+	return merge(c.OutDir, parts, map[string]any{"bases": len(bases), "def_bases": len(storex.DefBases()), "option_sets": storex.NOptions(),
+		"check_catalogue": len(storex.CheckCatalogue()), "check_catalogue_static": storex.NStaticChecks()})
+}
+
+// merge joins the per-base parts (ops.txt, impl.txt, stats.json) in order and removes them.
+func merge(dir string, parts []string, extra map[string]any) error {
+	fo, err := os.Create(filepath.Join(dir, "ops.txt"))
 	if err != nil {
 		return err
 	}
-	rng := hx.NewRng(c.Seed)
+	defer fo.Close()
+	fi, err := os.Create(filepath.Join(dir, "impl.txt"))
+	if err != nil {
+		return err
+	}
+	defer fi.Close()
+	hist := map[string]int{}
+	var samples []any
+	cases := 0
+	for _, p := range parts {
+		for name, w := range map[string]*os.File{"ops.txt": fo, "impl.txt": fi} {
+			b, err := os.ReadFile(filepath.Join(p, name))
+			if err != nil {
+				return err
+			}
+			if _, err := w.Write(b); err != nil {
+				return err
+			}
+		}
+		var st struct {
+			Cases     int            `json:"cases"`
+			Histogram map[string]int `json:"histogram"`
+			Samples   []any          `json:"samples"`
+		}
+		b, err := os.ReadFile(filepath.Join(p, "stats.json"))
+		if err != nil {
+			return err
+		}
+		if err := json.Unmarshal(b, &st); err != nil {
+			return err
+		}
+		cases += st.Cases
+		for k, v := range st.Histogram {
+			hist[k] += v
+		}
+		if len(samples) < 12 && len(st.Samples) > 0 {
+			samples = append(samples, st.Samples[0])
+		}
+		os.RemoveAll(p)
+	}
+	st := map[string]any{"cases": cases, "histogram": hist, "samples": samples}
+	for k, v := range extra {
+		st[k] = v
+	}
+	b, _ := json.MarshalIndent(st, "", " ")
+	return os.WriteFile(filepath.Join(dir, "stats.json"), b, 0o644)
+}
+
+// runBase runs every history class over one base.
+func runBase(c hx.Config, b storex.Base, rng *hx.Rng, o *hx.Out) {
 	nopt := storex.NOptions()
 	nfixed := len(storex.OptionSets())
 	cat := storex.CheckCatalogue()
@@ -49,13 +177,13 @@ func run(c hx.Config) error {
 	if c.Thorough() {
 		reps = 4
 	}
-	for _, b := range storex.Bases() {
+	{
 		methods := storex.Methods(b.Mk())
 		sort.Strings(methods)
 		for rep := 0; rep < reps; rep++ {
 			for _, m := range methods {
 				// H1: child, then parent (and again)
-				h := storex.NewHist(b, false)
+				h := storex.NewHistDef(b)
 				if h.Step(0, m, rep, o) {
 					h.ConvR(1, 0, o)
 					h.ConvR(0, 0, o)
@@ -68,7 +196,7 @@ func run(c hx.Config) error {
 				// H5: registries. The child (and a composite holding it, when the type has one) is converted under a
 				// private registry that gives it an ID, then everything again with default options, then under a
 				// registry that names every schema, then with default options again.
-				h = storex.NewHist(b, false)
+				h = storex.NewHistDef(b)
 				if h.Step(0, m, rep, o) {
 					for _, w := range []string{"Or", "And", "Optional", "Array", "Slice"} {
 						if h.Step(1, w, 0, o) {
@@ -93,7 +221,7 @@ func run(c hx.Config) error {
 					emit(h, o, "H5")
 				}
 				// H2: two siblings
-				h = storex.NewHist(b, false)
+				h = storex.NewHistDef(b)
 				if h.Step(0, m, rep, o) && h.Step(0, hx.Pick(rng, methods), rng.Intn(3), o) {
 					h.ConvR(1, 0, o)
 					h.ConvR(2, 0, o)
@@ -115,7 +243,7 @@ func run(c hx.Config) error {
 					if ci >= nstatic && !c.Thorough() && rng.Intn(len(cat)-nstatic) >= 40 {
 						continue
 					}
-					h := storex.NewHist(b, false)
+					h := storex.NewHistDef(b)
 					if !h.Step(0, cm, storex.CheckVariantBase+ci, o) {
 						continue
 					}
@@ -152,7 +280,7 @@ func run(c hx.Config) error {
 					if lim := map[bool]int{false: 6, true: 60}[c.Thorough()]; ci >= nstatic && rng.Intn(len(cat)-nstatic) >= lim {
 						continue
 					}
-					h := storex.NewHist(storex.WithAddedCheck(b, storex.CheckVariantBase+ci), false)
+					h := storex.NewHistDef(storex.WithAddedCheck(b, storex.CheckVariantBase+ci))
 					h.ConvR(0, 0, o)
 					h.ConvR(0, rng.Intn(nopt), o)
 					h.ConvR(0, 0, o)
@@ -176,7 +304,7 @@ func run(c hx.Config) error {
 			}
 			// H3/H4: random family, conversions in random order with random options, each schema at least twice
 			for k := 0; k < 6; k++ {
-				h := storex.NewHist(b, false)
+				h := storex.NewHistDef(b)
 				for i := 0; i < 2+rng.Intn(4); i++ {
 					h.Step(rng.Intn(len(h.Live)), hx.Pick(rng, methods), rng.Intn(3), o)
 				}
@@ -199,6 +327,6 @@ func run(c hx.Config) error {
 				emit(h, o, "H3")
 			}
 		}
+
 	}
-	return o.Close(map[string]any{"bases": len(storex.Bases()), "option_sets": nopt, "check_catalogue": len(cat), "check_catalogue_static": nstatic})
 }
